@@ -453,4 +453,193 @@ Proof.
   all: try (
     destruct (cstep_ok_frame _ _ _ (label_ok_14 _ _ Hok) Hcs) as (F1 & F2 & F3 & _);
     rewrite ?F1, ?F2, ?F3; first [assumption | (intros Hf Hx; eapply ddone_stable; [apply K10; assumption|exact Hcs])]; fail).
-Admitted.
+  (* watcher / receiver facts whose atoms were destructed by the step inversion *)
+  all: try (intros; first [ (apply K2; auto; fail) | (apply K3; auto; fail) | (apply K6; auto; fail) | (apply K5; auto; fail)
+                          | (rewrite ?Hrc, ?Hctx; auto; fail) ]; fail).
+  all: try (split; intro Hx; first [discriminate Hx | reflexivity
+                                   | (destruct K4 as [Kx _]; specialize (Kx Hx); discriminate Kx) ]; fail).
+  all: try (intros [Hx|Hx]; discriminate Hx).
+  - (* Spawn *)
+    intros t0 th0 Ht0. apply updt_cases in Ht0. destruct Ht0 as [[-> ->]|[Hne Ht0]]; [|exact (K1 _ _ Ht0)].
+    unfold tinv3, exp_active, async_active, late_ok, close_returned; asimp.
+    destruct k; try discriminate Hka; destruct (once s); destruct (6 <=? stage s); destruct (9 <=? stage s);
+      destruct (has_recv s); reflexivity.
+  - (* COnce wins the Once *)
+    intros t0 th0 Ht0. apply updt_cases in Ht0. destruct Ht0 as [[-> ->]|[Hne Ht0]].
+    + pose proof (K1 _ _ Hth) as Tt. unfold tinv3, exp_active, async_active, close_returned in *; asimp.
+      rewrite ?Honce, ?I3 in *. leb_compute. cbn in *. destruct (t_late th); [|reflexivity].
+      exact Tt.
+    + pose proof (K1 _ _ Ht0) as T0. unfold tinv3, close_returned in *; asimp.
+      rewrite ?Honce, ?I3 in *. leb_compute. cbn in *. destruct (t_late th0); [|reflexivity].
+      cbn in T0. rewrite ?andb_false_r in T0. discriminate T0.
+  - (* ECheck passes the gate: the flag is not set, so Close has not returned *)
+    intros t0 th0 Ht0. apply updt_cases in Ht0. destruct Ht0 as [[-> ->]|[Hne Ht0]]; [|exact (K1 _ _ Ht0)].
+    pose proof (K1 _ _ Hth) as Tt. unfold tinv3, exp_active, async_active, close_returned in *; asimp.
+    rewrite Hpc in Tt. cbn in Tt |- *.
+    destruct (t_late th); [exfalso|cbn; destruct (6 <=? stage s); destruct (9 <=? stage s); reflexivity].
+    destruct (once s); try (destruct (6 <=? stage s); destruct (9 <=? stage s); discriminate Tt).
+    assert (X : false = true) by (apply J2; lia). discriminate X.
+  - (* EAdd: expSyncWG.Add(1) happens with the flag not set, i.e. before doClose waits *)
+    intros t0 th0 Ht0. apply updt_cases in Ht0. destruct Ht0 as [[-> ->]|[Hne Ht0]]; [|exact (K1 _ _ Ht0)].
+    pose proof (J1 _ _ Hth) as T2. unfold tinv2 in T2. rewrite Hpc in T2. cbn in T2.
+    apply andb_prop in T2. destruct T2 as [_ T2]. apply negb_true_iff in T2.
+    assert (Hst : stage s < 4). { destruct (Nat.lt_ge_cases (stage s) 4) as [Hl|Hg]; [exact Hl|]. rewrite J2 in T2 by exact Hg. discriminate. }
+    pose proof (K1 _ _ Hth) as Tt. unfold tinv3, exp_active, async_active, late_ok, close_returned in *; asimp.
+    rewrite Hpc in Tt.
+    assert (E6 : (6 <=? stage s) = false) by (apply Nat.leb_gt; lia).
+    assert (E9 : (9 <=? stage s) = false) by (apply Nat.leb_gt; lia).
+    rewrite E6, E9 in *. cbn in *.
+    destruct (t_late th); [|reflexivity]. destruct (once s); destruct (t_kind th); destruct (has_recv s); cbn in *; discriminate Tt.
+  - (* NCheck: the receiver is open, so Close has not returned *)
+    intros t0 th0 Ht0. apply updt_cases in Ht0. destruct Ht0 as [[-> ->]|[Hne Ht0]]; [|exact (K1 _ _ Ht0)].
+    pose proof (K1 _ _ Hth) as Tt. unfold tinv3, exp_active, async_active, close_returned in *; asimp.
+    rewrite Hpc in Tt. cbn in Tt |- *.
+    destruct (t_late th); [exfalso|cbn; destruct (6 <=? stage s); destruct (9 <=? stage s); reflexivity].
+    destruct (once s); try (destruct (6 <=? stage s); destruct (9 <=? stage s); discriminate Tt).
+    assert (false = true) by (apply K2; [lia|reflexivity]). discriminate.
+  - (* watch starts a goroutine: it has not exited, so doClose is not past <-watchDone *)
+    intros t0 th0 Ht0. apply updt_cases in Ht0. destruct Ht0 as [[-> ->]|[Hne Ht0]]; [|exact (K1 _ _ Ht0)].
+    assert (Hst : stage s < 8).
+    { destruct (Nat.lt_ge_cases (stage s) 8) as [Hl|Hg]; [exact Hl|]. exfalso.
+      destruct K4 as [Kx _]. specialize (Kx (K3 Hg eq_refl)). discriminate Kx. }
+    unfold tinv3, exp_active, async_active; asimp.
+    assert (E9 : (9 <=? stage s) = false) by (apply Nat.leb_gt; lia). rewrite E9. cbn.
+    destruct (6 <=? stage s); reflexivity.
+Qed.
+
+Theorem inv3_reach fx r cap s : reach fx r cap s -> Inv3 fx s.
+Proof.
+  apply (invariant_reachable2 (stepf fx) (fun s => Inv1 s /\ Inv2 s) (Inv3 fx)).
+  - intros s0 R. split; [apply (inv1_reach _ _ _ _ R)|apply (inv2_reach _ _ _ _ R)].
+  - apply inv3_init.
+  - intros s0 l s1 [H1 H2] H3 Hs. eapply inv3_step; eassumption.
+Qed.
+
+(* ================================================================== *)
+(* Safety theorems                                                     *)
+
+Lemma returned_stage fx r cap s : reach fx r cap s -> close_returned s = true -> stage s = 12.
+Proof.
+  intros R H. destruct (inv1_reach _ _ _ _ R) as (_ & _ & I3). unfold close_returned in H.
+  destruct (once s); try discriminate. exact I3.
+Qed.
+
+Lemma stage_active fx r cap s t th :
+  reach fx r cap s -> threads s t = Some th ->
+  (6 <= stage s -> exp_active th = false) /\ (9 <= stage s -> async_active th = false).
+Proof.
+  intros R Hth. destruct (inv3_reach _ _ _ _ R) as (K1 & _). pose proof (K1 _ _ Hth) as T. unfold tinv3 in T.
+  apply andb_prop in T. destruct T as [T _]. apply andb_prop in T. destruct T as [T1 T2].
+  split; intro Hs; apply Nat.leb_le in Hs; [rewrite Hs in T1|rewrite Hs in T2]; cbn in *; apply negb_true_iff; assumption.
+Qed.
+
+(* once Close has returned: no block-hook call, no store write, no notification is produced
+   or forwarded any more (with doClose waiting for the distributor) *)
+Theorem after_close_silent r cap s :
+  reach true r cap s -> close_returned s = true -> forall l, activity s l = false.
+Proof.
+  intros R Hc l. pose proof (returned_stage _ _ _ _ R Hc) as Hs.
+  destruct l as [k|t c|c|c|lb]; cbn [activity]; try reflexivity.
+  - destruct (threads s t) as [th|] eqn:Hth; [|reflexivity].
+    destruct (stage_active _ _ _ _ _ _ R Hth) as [A1 A2].
+    specialize (A1 ltac:(lia)). specialize (A2 ltac:(lia)).
+    unfold exp_active, async_active in *. destruct (t_pc th) as [| | | | | | | | | | | | | | | | | |[|n]| | | | | | | |[|n]| | | | | |x]; try reflexivity; try discriminate.
+  - destruct lb; try reflexivity.
+    destruct (inv3_reach _ _ _ _ R) as (_ & _ & _ & _ & _ & _ & _ & _ & _ & K10).
+    rewrite (K10 eq_refl) by lia. reflexivity.
+Qed.
+
+(* the code as found: Close returns while a notification is still in inEvents; the
+   distributor forwards it to the listeners afterwards *)
+Definition silent_witness : list label :=
+  [Core LNew; Core (LAdd 0); Core LDist;
+   Spawn (KExp 1 true); Step 0 0; Step 0 0; Step 0 0; Step 0 0; Step 0 0; Step 0 0; Step 0 0; Step 0 0; Step 0 0;
+   Spawn KClose; Step 1 0; Step 1 0; Step 1 0; Step 1 0; Step 1 0; Step 1 0; Step 1 0;
+   Watcher 1; Watcher 0; Watcher 0; Step 1 0; Step 1 0; Step 1 0; Step 1 0; Step 1 0].
+
+Theorem after_close_silent_refuted :
+  exists s, reach false true 1 s /\ close_returned s = true /\
+            activity s (Core LDist) = true /\ exists s', stepf false s (Core LDist) = Some s'.
+Proof.
+  assert (H : option_map (fun s => (close_returned s, activity s (Core LDist),
+                                    match stepf false s (Core LDist) with Some _ => true | None => false end))
+                (run (stepf false) (init true 1) silent_witness) = Some (true, true, true))
+    by (vm_compute; reflexivity).
+  destruct (run (stepf false) (init true 1) silent_witness) as [s|] eqn:E; [|discriminate].
+  exists s. split; [exists silent_witness; exact E|].
+  cbn [option_map] in H. injection H as H1 H2 H3.
+  split; [exact H1|]. split; [exact H2|].
+  destruct (stepf false s (Core LDist)); [eexists; reflexivity|discriminate].
+Qed.
+
+(* all listener channels are closed when Close returns *)
+Theorem listeners_closed r cap s :
+  reach true r cap s -> close_returned s = true ->
+  d_pc (co s) = DDone /\
+  forall l x, lst (co s) l = Some x -> l_reg x = true -> l_in_closed x = true.
+Proof.
+  intros R Hc. pose proof (returned_stage _ _ _ _ R Hc) as Hs.
+  destruct (inv3_reach _ _ _ _ R) as (_ & _ & _ & _ & _ & _ & _ & _ & _ & K10).
+  assert (Hd : d_pc (co s) = DDone) by (apply K10; [reflexivity|lia]).
+  split; [exact Hd|]. intros l x. apply core_done_closed_all; [eapply reach_core; eassumption|exact Hd].
+Qed.
+
+(* doClose does not get past expSyncWG.Wait() while an admitted explicit sync is unfinished,
+   nor past asyncWG.Wait() while an announce-triggered one is; by then their context is
+   cancelled *)
+Theorem explicit_syncs_finish_async_cancelled fx r cap s :
+  reach fx r cap s ->
+  (6 <= stage s -> forall t th, threads s t = Some th -> exp_active th = false) /\
+  (8 <= stage s -> has_recv s = true -> ctx_cancelled s = true /\ w_pc s = WEnd) /\
+  (9 <= stage s -> forall t th, threads s t = Some th -> async_active th = false).
+Proof.
+  intro R. split; [|split].
+  - intros Hs t th Hth. apply (stage_active _ _ _ _ _ _ R Hth). exact Hs.
+  - intros Hs Hr. destruct (inv3_reach _ _ _ _ R) as (_ & _ & K3 & K4 & K5 & _).
+    pose proof (proj1 K4 (K3 Hs Hr)) as Hw. split; [apply K5; right; exact Hw|exact Hw].
+  - intros Hs t th Hth. apply (stage_active _ _ _ _ _ _ R Hth). exact Hs.
+Qed.
+
+(* every goroutine the subscriber started has ended or is past its last blocking point *)
+Theorem threads_end r cap s :
+  reach true r cap s -> close_returned s = true ->
+  (forall t th, threads s t = Some th -> exp_active th = false /\ async_active th = false) /\
+  (has_recv s = true -> w_pc s = WEnd) /\
+  d_pc (co s) = DDone /\
+  closing (co s) = true.
+Proof.
+  intros R Hc. pose proof (returned_stage _ _ _ _ R Hc) as Hs.
+  destruct (explicit_syncs_finish_async_cancelled _ _ _ _ R) as (E1 & E2 & E3).
+  split; [|split; [|split]].
+  - intros t th Hth. split; [eapply E1|eapply E3]; try eassumption; lia.
+  - intro Hr. apply E2; [lia|exact Hr].
+  - apply (listeners_closed _ _ _ R Hc).
+  - destruct (inv3_reach _ _ _ _ R) as (_ & _ & _ & _ & _ & _ & K7 & _). apply K7. lia.
+Qed.
+
+(* the idle-handler cleaner ends once s.closing is closed: its exit is enabled *)
+Theorem cleaner_ends fx r cap s :
+  reach fx r cap s -> closing (co s) = true ->
+  ic_pc s = ICEnd \/ (exists s', stepf fx s (Cleaner 1) = Some s' /\ (ic_pc s' = ICEnd \/ ic_pc s' = ICWait)).
+Proof.
+  intros R Hc. cbn [stepf]. unfold cleaner_step. destruct (ic_pc s); [|right|left; reflexivity].
+  - right. rewrite Hc. eexists. split; [reflexivity|]. asimp. auto.
+  - eexists. split; [reflexivity|]. asimp. auto.
+Qed.
+
+(* Once: at most one goroutine ever runs doClose; nothing is closed twice *)
+Theorem close_idempotent_concurrent fx r cap s :
+  reach fx r cap s ->
+  p_env (co s) = false /\
+  (forall t1 t2 th1 th2, threads s t1 = Some th1 -> threads s t2 = Some th2 ->
+     closer_body (t_pc th1) = true -> closer_body (t_pc th2) = true -> t1 = t2) /\
+  (close_returned s = true -> forall t th, threads s t = Some th -> closer_body (t_pc th) = false).
+Proof.
+  intro R. destruct (inv1_reach _ _ _ _ R) as (I1 & I2 & I3).
+  split; [apply (inv3_reach _ _ _ _ R)|]. split.
+  - intros t1 t2 th1 th2 H1 H2 B1 B2.
+    destruct (runner_once _ _ _ (I2 _ _ H1) B1) as [O1 _]. destruct (runner_once _ _ _ (I2 _ _ H2) B2) as [O2 _].
+    congruence.
+  - intros Hc t th Hth. destruct (closer_body (t_pc th)) eqn:B; [|reflexivity].
+    destruct (runner_once _ _ _ (I2 _ _ Hth) B) as [O1 _]. unfold close_returned in Hc. rewrite O1 in Hc. discriminate.
+Qed.
